@@ -275,7 +275,7 @@ func runC12(c *an.Ctx) {
 	}
 
 	// ---- R7 cache keys
-	c12Key(c, "filter/internal.NewCacheKey", []string{"p0", "p1", "p2", "p3"})
+	c12Key(c, "C12-R7", "filter/internal.NewCacheKey", []string{"p0", "p1", "p2", "p3"})
 
 	cachePerEngine(c, "C12-R8")
 }
@@ -385,10 +385,10 @@ func isEmptyCache(v ssa.Value) bool {
 
 // c12Key checks that the key function's result depends on every listed
 // parameter and that the inputs are written to disjoint, wide-enough ranges.
-func c12Key(c *an.Ctx, fnKey string, params []string) {
+func c12Key(c *an.Ctx, rule, fnKey string, params []string) {
 	fn := c.Fn(fnKey)
 	if fn == nil {
-		c.Und("C12-R7", fnKey, token.NoPos, "anchor not found")
+		c.Und(rule, fnKey, token.NoPos, "anchor not found")
 		return
 	}
 	c.Analysed(fnKey)
@@ -405,16 +405,17 @@ func c12Key(c *an.Ctx, fnKey string, params []string) {
 		}
 		key := fmt.Sprintf("%s depends on %s", fnKey, pa.Name())
 		_ = i
-		c.Check(reaches, "C12-R7", key, fn.Pos(), "the key depends on this input",
+		c.Check(reaches, rule, key, fn.Pos(), "the key depends on this input",
 			"the key does not depend on this input: entries for different "+pa.Name()+" values collide")
 	}
 	// lossy combinations of two inputs
 	bad := keyPackingProblems(c, fn)
 	if len(bad) > 0 {
-		c.Bad("C12-R7", fnKey+" packing", fn.Pos(), "key inputs overlap: %s", strings.Join(bad, "; "))
+		c.Bad(rule, fnKey+" packing", fn.Pos(), "key inputs overlap: %s", strings.Join(bad, "; "))
 	} else {
-		c.Ok("C12-R7", fnKey+" packing", fn.Pos(), "every input is written to its own byte range of sufficient width; no overlapping shifts")
+		c.Ok(rule, fnKey+" packing", fn.Pos(), "every input is written to its own byte range of sufficient width; no overlapping shifts")
 	}
+	sharedKeyPacking(c, rule, fnKey, 1)
 }
 
 // forwardTaint returns the values of fn that (may) depend on src, propagating
